@@ -4,22 +4,25 @@ namespace LV.Driver.Sched
 open LV LV.Driver LV.PoolLts
 
 def showSEv : SEv → String
-  | .ehlo => "E" | .noop => "N" | .mail i => s!"Ms{i}" | .rcpt => "R" | .rcptRej => "Rx" | .data => "D"
+  | .ehlo => "E" | .noop => "N" | .mail i => s!"Ms{i}" | .rcpt => "R" | .rcptRej => "Rx" | .rcptTemp => "Rt" | .data => "D"
   | .commit i k => s!"C.s{i}.{k}" | .quit => "Q" | .eof => "Z" | .kill => "K"
 
 def showRes : Res → String
-  | .ok => "ok" | .perm => "perm" | .err => "err" | .shutdown => "shutdown"
+  | .ok => "ok" | .perm => "perm" | .trans => "trans" | .err => "err" | .shutdown => "shutdown"
 
-def parseFaults (s : String) : Option (List (Option Nat × Option Nat)) :=
-  let base : List (Option Nat × Option Nat) := List.replicate 64 (none, none)
+def parseFaults (s : String) : Option (List Plan) :=
+  let base : List Plan := List.replicate 64 {}
   if s == "-" then some base else
   (s.splitOn ",").foldlM (fun acc item =>
     match item.splitOn ":" with
     | [c, f] =>
       match c.toNat?, (f.drop 1).toString.toNat? with
       | some c, some n =>
-        if f.startsWith "d" then some (acc.modify c fun p => (some n, p.2))
-        else if f.startsWith "r" then some (acc.modify c fun p => (p.1, some n))
+        if f.startsWith "d" then some (acc.modify c fun p => { p with dropAfter := some n })
+        else if f.startsWith "r" then some (acc.modify c fun p => { p with rejectRcpt := some n })
+        else if f.startsWith "t" then some (acc.modify c fun p => { p with tempRcpt := some n })
+        else if f.startsWith "x" then some (acc.modify c fun p => { p with noop421 := some n })
+        else if f.startsWith "s" then some (acc.modify c fun p => { p with slowNoop := some n })
         else none
       | _, _ => none
     | _ => none) base
@@ -67,7 +70,7 @@ def renderIdle (s : St) : String :=
 partial def connOracle : List String → Bool → Option String
   | [], _ => none
   | "E" :: rest, _ => connOracle rest true
-  | "N" :: m :: rest, _ => if m.startsWith "M" then txn m rest else if m == "Q" || m == "Z" || m == "N" then connOracle (m :: rest) false else some "probe-followed-by-something-else"
+  | "N" :: m :: rest, _ => if m.startsWith "M" then txn m rest else if m == "Q" || m == "Z" || m == "N" || m == "K" then connOracle (m :: rest) false else some "probe-followed-by-something-else"
   | ["N"], _ => none
   | m :: rest, fresh =>
     if m.startsWith "M" then (if fresh then txn m rest else some "connection-reused-without-a-probe")
@@ -84,6 +87,8 @@ where
       else if c.startsWith s!"C{who}." then some "message-content-altered-in-transit"
       else some "transaction-mixes-two-sends"
     | "Rx" :: rest' =>
+      (match rest' with | [] | ["Q"] | ["Q", "Z"] | ["Z"] => none | _ => some "connection-used-after-a-failed-command")
+    | "Rt" :: rest' =>
       (match rest' with | [] | ["Q"] | ["Q", "Z"] | ["Z"] => none | _ => some "connection-used-after-a-failed-command")
     | _ => some "incomplete-or-interleaved-transaction"
 
